@@ -320,7 +320,11 @@ func (m *Manager) AddAllowedRange(network *net.IPNet) error {
 		return fmt.Errorf("IPv4 network required")
 	}
 
-	ones, _ := network.Mask.Size()
+	ones, bits := network.Mask.Size()
+	if bits != 32 {
+		// Size() reports 0, 0 for a mask that is not a prefix: it would install 0.0.0.0/0
+		return fmt.Errorf("IPv4 prefix mask required")
+	}
 
 	// LPM trie keys are matched bit by bit from the first data byte: the address
 	// must be in network byte order, as the program's lookup key (ip->saddr) is.
